@@ -679,8 +679,8 @@ theorem run_reachable {s0 : St} : ∀ (ls : List Label) (s t : St), Reachable s0
       simp only [hf, Option.bind_some] at e
       exact run_reachable ls u t (.step h ⟨l, hf⟩) e
 
-/-- index of a program point in `allS` (driver: snapshot of the count function) -/
-def Pc.idx (p : Pc) : Nat := allS.idxOf p
+/-- index of a program point in `allS` (= its constructor index; driver: snapshot of the count function) -/
+def Pc.idx (p : Pc) : Nat := p.ctorIdx
 
 /-- extensionally the same state with the count function tabulated (keeps the driver's closures flat) -/
 def St.compact (s : St) : St :=
